@@ -545,13 +545,23 @@ func entityLUBsRelated(a, b entityLUB) bool {
 // isEntityDescendant returns true if childType can be a descendant (member) of ancestorType.
 // This means childType lists ancestorType (directly or transitively) in its ParentTypes.
 func (v *Validator) isEntityDescendant(childType, ancestorType types.EntityType) bool {
+	// The entity type hierarchy of a schema may be cyclic (entity A in [A]; is legal), so
+	// the walk keeps a visited set.
+	return v.isEntityDescendantVisit(childType, ancestorType, map[types.EntityType]bool{})
+}
+
+func (v *Validator) isEntityDescendantVisit(childType, ancestorType types.EntityType, visited map[types.EntityType]bool) bool {
+	if visited[childType] {
+		return false
+	}
+	visited[childType] = true
 	// Entity types always exist in the schema (validated during scope checking).
 	entity := v.schema.Entities[childType]
 	for _, parent := range entity.ParentTypes {
 		if parent == ancestorType {
 			return true
 		}
-		if v.isEntityDescendant(parent, ancestorType) {
+		if v.isEntityDescendantVisit(parent, ancestorType, visited) {
 			return true
 		}
 	}
